@@ -26,6 +26,9 @@ def run(cmd):
     return p.returncode, p.stdout
 
 
+TAGS = ["-tags", os.environ["SEED_TAGS"]] if os.environ.get("SEED_TAGS") else []
+
+
 def testset(pkgs):
     rc, out = run(["go", "test", "-vet=off", "-count=1", "-json"] + pkgs)
     res = {}
@@ -47,7 +50,7 @@ try:
     _, outb0 = run(BUILD)
     fail0 = set(re.findall(r"^# (\S+)", outb0, re.M))
     shutil.copy(os.path.join(d, "demo_test.go"), demo_dst)
-    rc0, out0 = run(["go", "test", "-vet=off", "-count=1", "-run", runre, "./" + pkgdir])
+    rc0, out0 = run(["go", "test", "-vet=off", "-count=1"] + TAGS + ["-run", runre, "./" + pkgdir])
     os.remove(demo_dst)
     pa = subprocess.run(["git", "apply", os.path.join(d, "patch.diff")], cwd=wt, stdout=subprocess.PIPE, stderr=subprocess.STDOUT, text=True)
     _, outb = run(BUILD)
@@ -55,7 +58,7 @@ try:
     rcb = 0 if fail1 <= fail0 else 1   # third-party cgo packages fail to build on the unchanged tree too
     mut_tests = testset(pkgs)
     shutil.copy(os.path.join(d, "demo_test.go"), demo_dst)
-    rc1, out1 = run(["go", "test", "-vet=off", "-count=1", "-run", runre, "./" + pkgdir])
+    rc1, out1 = run(["go", "test", "-vet=off", "-count=1"] + TAGS + ["-run", runre, "./" + pkgdir])
     changed = {k: (base_tests.get(k), mut_tests.get(k)) for k in set(base_tests) | set(mut_tests) if base_tests.get(k) != mut_tests.get(k)}
     res = {"patch_applies": pa.returncode == 0, "build_ok_with_patch": rcb == 0,
            "demo_passes_without_patch": rc0 == 0, "demo_fails_with_patch": rc1 != 0,
